@@ -1414,6 +1414,7 @@ def oracle_c04(run, ops, impl):
 
 PROPS["C04"] = {
     "modules": ["NibiruProofs.C04"],
+    "fact_obligations": ["fact_C04_onRunStart_sequence"],
     "runs": [{"model": "sdb", "n_quick": 400, "n_thorough": 8000, "nontrivial": r"^P:ACC="}],
     "oracle": oracle_c04,
     "rule": "corpus first (corpus/C04/*.ops: minimal histories of the known findings and an atomic control case), then generated "
@@ -1757,7 +1758,7 @@ PROPS["C01"] = {
     "runs": [{"model": "replicas", "n_quick": 40, "n_thorough": 400, "thorough_seeds": 6, "no_model": True, "per_line": True,
               "nontrivial": r"^agree ok=[1-9]"}],
     "oracle": oracle_c01,
-    "fact_obligations": ["fact_C01_map_range_sites", "fact_C01_to_slice_consumers", "fact_C01_goroutines_and_clock", "fact_C01_leak_is_contained", "fact_C01_sort_comparators"],
+    "fact_obligations": ["fact_C01_map_range_sites", "fact_C01_map_range_outer_writes", "fact_C01_to_slice_consumers", "fact_C01_goroutines_and_clock", "fact_C01_leak_is_contained", "fact_C01_sort_comparators"],
     "rule": "three real NibiruApp instances in one process, initialised from the same genesis (three validators), fed the same blocks "
             "of encoded transactions through BeginBlock/DeliverTx/EndBlock/Commit: sudoers edits adding/removing several contracts, "
             "oracle prevotes and reveals by two validators across vote periods (tally, miss counters, rewards), deployments and calls of "
